@@ -9,8 +9,10 @@ from .tsu import build, run_wrapped, wrapped
 
 def step_budget(g: L.Grammar, text: str) -> int:
     """generous logical budget (rule invocations) for one parse: far above any legitimate need"""
+    # calibrated on the unchanged tree: the largest observed ratio calls / (n * (len+1)) over the C01 and C03
+    # workloads is 1.5, so this leaves a margin of >25x and still ends a runaway parse within seconds
     n = S.gsize(g)
-    return 5000 + 60 * n * n * (len(text) + 1) * (len(text) + 1)
+    return 1000 + 40 * n * (len(text) + 1)
 
 
 class Case:
